@@ -266,10 +266,14 @@ func (u *uploader) ListMultipartUploads(bucket string, marker *UploadListMarker,
 
 	var iter = goskipiter.New(bucketUploads.objectIndex.Iterator())
 	if marker != nil {
-		iter.Seek(marker.Object)
-		firstFound = marker.UploadID == ""
 		result.UploadIDMarker = marker.UploadID
 		result.KeyMarker = marker.Object
+		if !iter.Seek(marker.Object) {
+			// No key at or after the marker is left (the uploads it pointed at
+			// may have been completed or aborted since): the listing ends here.
+			return &result, nil
+		}
+		firstFound = marker.UploadID == ""
 	}
 
 	// Indicates whether the returned list of multipart uploads is truncated.
@@ -296,13 +300,18 @@ func (u *uploader) ListMultipartUploads(bucket string, marker *UploadListMarker,
 		}
 
 		if !firstFound {
-			for idx, mpu := range uploads {
-				if mpu.ID == marker.UploadID {
-					firstFound = true
-					uploads = uploads[idx:]
-					goto retry
+			// The upload-id marker applies to the marker key only. If that
+			// upload is gone (completed or aborted between two pages), the
+			// page resumes with the uploads of the key that were initiated
+			// after it; if the key has no uploads left, with the next key.
+			firstFound = true
+			if object == marker.Object {
+				uploads = uploads[uploadIndexFrom(uploads, marker.UploadID):]
+				if len(uploads) == 0 {
+					continue
 				}
 			}
+			goto retry
 
 		} else {
 			if match.CommonPrefix {
@@ -358,6 +367,23 @@ done:
 	result.IsTruncated = truncated
 
 	return &result, nil
+}
+
+// uploadIndexFrom returns the index of the upload with the given ID in a
+// key's uploads (kept in the order they were initiated), or, if there is no
+// such upload any more, of the first one initiated after it. Upload IDs are
+// decimal counters.
+func uploadIndexFrom(uploads []*multipartUpload, id UploadID) int {
+	want, wantOK := new(big.Int).SetString(string(id), 10)
+	for idx, mpu := range uploads {
+		if mpu.ID == id {
+			return idx
+		}
+		if have, ok := new(big.Int).SetString(string(mpu.ID), 10); ok && wantOK && have.Cmp(want) > 0 {
+			return idx
+		}
+	}
+	return len(uploads)
 }
 
 func (u *uploader) AbortMultipartUpload(bucket, object string, id UploadID) error {
